@@ -67,13 +67,13 @@ def main():
         rdir = wt + '-replays'
         for p in props:
             rc, o, e = sh([PY, '-B', 'run_check.py', p, '--tier', a.tier], cwd=HERE,
-                          env=dict(os.environ, VERIF_REPO_DIR=wt, VERIF_SEED=a.seed, VERIF_REPLAY_DIR=rdir))
+                          env=dict(os.environ, VERIF_REPO_DIR=wt, VERIF_SEED=a.seed, VERIF_REPLAY_DIR=rdir, VERIF_KEEP_HISTORY='1'))
             if rc == 1 and a.keep_as:
                 import glob
                 os.makedirs(os.path.join(HERE, 'regress', p), exist_ok=True)
                 for i, path in enumerate(sorted(glob.glob(os.path.join(rdir, f'{p}-*.json')), key=os.path.getsize)[:2]):
                     d = json.load(open(path))
-                    if len(json.dumps(d['case'])) > 60000:
+                    if len(json.dumps(d['case'])) > 60000 or 'traceback' in d['case']:
                         continue
                     json.dump({'property': p, 'origin': f'killed seeded change {a.keep_as}',
                                'signature_when_found': d['signature'], 'case': d['case'],
